@@ -8,14 +8,19 @@ from common import cq
 from props._cfg_common import TRUSTED, ASSUMPTIONS, TECHNIQUE
 
 PROP = "C13"
-LEVEL = "other"
-THEOREMS = {"Properties.C13": ["C13_accepts_empty_oracle", "C13_accepts_final_oracle", "C13_member_oracle"]}
-LEVEL_TEXT = ("Partial proof + correspondence: pyformlang PDAs have no acceptance procedure, so the property is stated against the reference small-step "
-              "semantics. Coq theorems (no axioms) show that the two acceptance oracles (saturation of pop / final items) are exactly acceptance by empty "
-              "stack and by final state for ALL PDAs and words (via a proved big-step/small-step equivalence), and that CFG membership is exact. The four "
-              "conversions are mirrored in the model; language preservation of each conversion is checked with these exact oracles on all words up to a "
-              "bound (bounded validation), for the PDAs/grammars pyformlang returns and for the model's own constructions.")
-LEVEL_NOTE = "Trusted: Coq kernel; hand-written models validated by correspondence; Python harness (reads PDAs through states/start_state/final_states/to_dict()/to_networkx())."
+LEVEL = "proof"
+THEOREMS = {"Properties.C13": ["C13_accepts_empty_oracle", "C13_accepts_final_oracle", "C13_member_oracle", "C13_cfg_to_pda", "C13_pda_to_cfg",
+                             "C13_to_final_state", "C13_to_empty_stack"]}
+LEVEL_TEXT = ("Proof + correspondence: pyformlang PDAs have no acceptance procedure, so the property is stated against the reference small-step "
+              "semantics. Coq theorems (no axioms) show, for the mirrored models of the four conversions and for ALL grammars / PDAs (epsilon moves, "
+              "multi-symbol pushes, no final states, ...) and words: cfg_to_pda accepts by empty stack exactly L(G); pda_to_cfg (triple construction with "
+              "the validity pruning) generates exactly the words accepted by empty stack; to_final_state and to_empty_stack exchange the two modes. The "
+              "hypotheses are the registration invariants the constructors establish (checked on every built operand). The two acceptance oracles "
+              "(saturation of pop / final items) are proved exact, as is CFG membership; with them the PDAs / grammars pyformlang returns are compared "
+              "with the operands on all words up to a bound, next to the model's own constructions.")
+LEVEL_NOTE = ("Trusted: Coq kernel; hand-written models validated by correspondence (pyformlang's fresh state / symbol names are constructors in the "
+              "model; the returned objects are tied to the operands by bounded language agreement through the proved oracles); Python harness (reads PDAs "
+              "through states/start_state/final_states/to_dict()/to_networkx()).")
 RULE = ("random PDAs (1-3 states, 1-2 input symbols, 1-3 stack symbols, <= 6 transitions, pushes of 0-3 symbols, epsilon moves and stack-growing epsilon "
         "cycles, no final states, reserved names) and random grammars x {to_pda, to_cfg, to_final_state, to_empty_stack}; words up to length 4")
 EXPLANATION = "Exact acceptance oracles (proved) applied to operands and results on all words up to a bound; mirrored conversion models evaluated alongside."
@@ -41,11 +46,24 @@ def generate(ctx):
     return cases
 
 
+def _pda_wf(p):
+    """The hypotheses of C13_pda_to_cfg / C13_to_final_state / C13_to_empty_stack (pda_wf), on a PDA description."""
+    states, stack = set(map(cfglib.vkey, p["states"])), set(map(cfglib.vkey, p["stack"]))
+    return (all(cfglib.vkey(t[3]) in states for t in p["trans"]) and (p["start"] is None or cfglib.vkey(p["start"]) in states)
+            and (p["z0"] is None or cfglib.vkey(p["z0"]) in stack) and all(cfglib.vkey(x) in stack for t in p["trans"] for x in t[4]))
+
+
+def _cfg_wf(g):
+    """The hypothesis of C13_cfg_to_pda: body terminals are registered."""
+    terms = set(map(cfglib.vkey, g["terms"]))
+    return all(cfglib.vkey(x[1]) in terms for _, body in g["prods"] for x in body if x[0] == "T")
+
+
 def impl(case):
     op = case["op"]
     if op == "cfg_to_pda":
         g = cfglib.build_cfg(case["g"])
-        return {"pda": pdalib.extract_pda(g.to_pda())}
+        return {"pda": pdalib.extract_pda(g.to_pda()), "wf": _cfg_wf(cfglib.extract_cfg(g))}
     p = pdalib.build_pda(case["p"])
     before = pdalib.extract_pda(p)
     if case.get("twice"):        # conversions of the same object twice: the second result is the one judged
@@ -55,6 +73,7 @@ def impl(case):
     else:
         out = {"pda": pdalib.extract_pda(getattr(p, op)())}
     out["operand_unchanged"] = pdalib.extract_pda(p) == before
+    out["wf"] = _pda_wf(before)
     return out
 
 
@@ -95,6 +114,11 @@ class _Ext:
             ctx.fail(op + "-exception", case, {"impl": obs})
             return
         ctx.count(1)
+        if not (_cfg_wf(case["g"]) if op == "cfg_to_pda" else _pda_wf(case["p"])):
+            raise RuntimeError("HARNESS: generated %s operand violates the registration hypotheses of the C13 theorems: %r" % (op, case))
+        if obs.get("wf") is False:
+            ctx.fail(op + "-operand-not-registered", case, {"note": "the object pyformlang built does not register its states / stack symbols / terminals"})
+            return
         d_impl, d_model = mv
         if d_model is not None:
             raise RuntimeError("HARNESS: the model's %s construction changes the language on %r (word %r)" % (op, case, d_model))
